@@ -27,7 +27,7 @@ def _build_and_test(root, src, work):
     lock = os.path.join(root, "Cargo.lock")
     if os.path.exists(lock):
         shutil.copy(lock, os.path.join(work, "Cargo.lock"))
-    env = dict(os.environ, CARGO_TARGET_DIR=os.path.join(facts.CACHE, "tgt-witness"), CARGO_NET_OFFLINE="true")
+    env = dict(os.environ, CARGO_TARGET_DIR=facts.bounded_target(os.path.join(facts.CACHE, "tgt-witness")), CARGO_NET_OFFLINE="true")
     r = subprocess.run(["cargo", "+nightly", "test", "--doc", "--offline"], cwd=work, env=env,
                        stdout=subprocess.PIPE, stderr=subprocess.STDOUT, text=True)
     return r.stdout
